@@ -119,25 +119,22 @@ impl Dag {
     pub fn set_subtree_visibility(&mut self, node: usize, visible: bool) -> Result<(), GraphError> {
         let mut work: VecDeque<usize> = VecDeque::new();
         let mut visited = HashSet::new();
-        let mut active = HashSet::new();
         work.push_front(node);
+        visited.insert(node);
         while let Some(n) = work.pop_front() {
             self.visibility[n] = visible;
-            visited.insert(n);
-            active.remove(&n);
             for &depn in &self.adj_list[n] {
-                if active.contains(&depn) {
-                    let label = self.get_label_by_node(&depn)?;
-                    return Err(GraphError::Cycle(depn, label.to_owned()));
-                }
-                if !visited.contains(&depn) {
+                if visited.insert(depn) {
                     work.push_back(depn);
-                    active.insert(depn);
                 }
             }
         }
-
-        Ok(())
+        // A breadth-first walk cannot tell a node that is reached twice because it is
+        // shared (a diamond) from one reached twice because it is on a cycle, so cycles
+        // are not detected here. Visibility has changed, so any cached verdict is stale;
+        // recompute it with the in-degree based detection over the visible nodes.
+        self.cycle_state = CycleState::Unknown;
+        self.get_groups().map(|_| ())
     }
 
     // Uses Kahn's Algorithm to walk the graph and build lists of nodes that are independent of each other at that level. In addition, this function will compute a cycle detection if it is not yet known.
